@@ -252,7 +252,9 @@ theorem local_preserves (hp : Placed home ehome vs) (hu : Union vs s) (hs : Inv 
         · split
           · rfl
           · cases hq : sidOf s ns eio with
-            | none => rw [hsid] at hq; rw [hq] at hc; cases hc
+            | none =>
+              have : (sidOf s ns eio).isSome = true := by rw [hsid]; exact hc
+              rw [hq] at this; cases this
             | some x => simp
       have hall : ∀ v ∈ vs, localRooms (.connect v0.1 ns eio sid) v = v.2 := by
         intro v hv
@@ -323,7 +325,7 @@ theorem local_preserves (hp : Placed home ehome vs) (hu : Union vs s) (hs : Inv 
       simp only [List.mem_singleton] at hmem
       subst hmem
       have hent := eioOf_some_mem hq0
-      exact ⟨hp.home v0 hv0 _ hent, hp.ehome v0 hv0 _ hent⟩
+      exact ⟨hp.home v0 hv0 ⟨ns, none, sid, eio⟩ hent, hp.ehome v0 hv0 ⟨ns, none, sid, eio⟩ hent⟩
   | leave via ns sid room =>
     refine ⟨placed_shrink hp _ (fun v hv => inv_localRooms (hp.inv v hv) _) ?_, ?_⟩
     · intro v _ e he
@@ -340,9 +342,9 @@ theorem local_preserves (hp : Placed home ehome vs) (hu : Union vs s) (hs : Inv 
       exact (List.mem_filter.mp he).1
     · exact union_filter hu _
   | emit via ev d ns to skip cb =>
-    rw [hsame _ (fun v _ => rfl)]; exact ⟨hp, hu⟩
+    rw [hsame (localRooms (.emit via ev d ns to skip cb)) (fun v _ => rfl)]; exact ⟨hp, hu⟩
   | ack ns sid n args =>
-    rw [hsame _ (fun v _ => rfl)]; exact ⟨hp, hu⟩
+    rw [hsame (localRooms (.ack ns sid n args)) (fun v _ => rfl)]; exact ⟨hp, hu⟩
   | deliver h k => exact absurd hop (by simp [OpOk])
   | drain => exact absurd hop (by simp [OpOk])
 
